@@ -5,7 +5,12 @@
    UpsertLastModTime, UpsertHash), watcher/watch.go (WalkFiles) and internal/skipdir (ShouldSkip).
 
    File tree.  A file is identified by <<dir, name>>, dir a sequence of directory names from
-   {"d" (plain), "vendor", "node_modules", ".x", "_x"}.  Names and contents:
+   {"d" (plain), "vendor", "node_modules", ".x", "_x"} and the NEAR MISSES of the skip rule, which must be walked:
+   "multivendor", "old_node_modules" (end with a skipped name), "vendored", "node_modules2" (start with one),
+   "Vendor" (differs in case only: the rule is case-sensitive), "x.y" (dot inside), "x_", "a_b" (underscore not as
+   prefix).  The skip rule is modelled on the SPELLING of the name (Spell), exactly as internal/skipdir.ShouldSkip
+   is coded: name == "vendor" || name == "node_modules" || HasPrefix(name, ".") || HasPrefix(name, "_").
+   Names and contents:
      a.templ, b.templ       "good" | "unparsable" (parser.Parse fails) | "badgo" (format.Source fails)
      a_templ.go, b_templ.go "genV" / "genN" = the gofmt-formatted generation of the sibling .templ alone with /
                             without the version comment, "junk" = anything else
@@ -28,7 +33,9 @@
 
    Bug switches (negative configs): Mutex = FALSE (UpsertHash without hashesMutex), ErrsCloser =
    "dispatcher" (errs closed as soon as the events are drained, before the workers finish),
-   MainReadsErrs = FALSE (main waits for the wait groups before reading errs), SkipRule.          *)
+   MainReadsErrs = FALSE (main waits for the wait groups before reading errs), SkipRule (the walker does not
+   skip dot / underscore directories; compares with HasSuffix / HasPrefix / case-insensitively instead of
+   equality; looks for "." / "_" anywhere in the name instead of at its start).                  *)
 EXTENDS Integers, Sequences, FiniteSets, TLC, Json, SequencesExt
 
 CONSTANTS Trees,          \* set of initial trees; a tree is a set of files [dir, name, c, m]
@@ -37,7 +44,7 @@ CONSTANTS Trees,          \* set of initial trees; a tree is a set of files [dir
           Mutex,          \* TRUE: UpsertHash is one critical section
           ErrsCloser,     \* "postgen" (as coded) | "dispatcher"
           MainReadsErrs,  \* TRUE (as coded)
-          SkipRule,       \* "coded" | "nounderscore" | "nodot"
+          SkipRule,       \* "coded" | "nounderscore" | "nodot" | "suffix" | "prefix" | "foldcase" | "contains"
           TwoRuns,        \* TRUE: compose a second run
           EmitCases       \* TRUE: print one record per terminated behaviour
 
@@ -61,15 +68,55 @@ SibOf(n)   == IF n = "a.templ" THEN "a_templ.go" ELSE "b_templ.go"
 TemplOf(n) == IF n = "a_templ.go" THEN "a.templ" ELSE "b.templ"
 Matches(n) == n \in TemplNames \cup GenNames \cup {"o.go"}       \* (.+\.go$)|(.+\.templ$)
 
-\* byte order of the names inside one directory (fs.WalkDir sorts directory entries by name)
-Rank(n) == CASE n = ".x" -> 1 [] n = "_x" -> 2 [] n = "a.templ" -> 3 [] n = "a_templ.go" -> 4
-             [] n = "b.templ" -> 5 [] n = "b_templ.go" -> 6 [] n = "d" -> 7 [] n = "n.txt" -> 8
-             [] n = "node_modules" -> 9 [] n = "o.go" -> 10 [] n = "vendor" -> 11
+\* byte order of the names inside one directory (fs.WalkDir sorts directory entries by name); the harness checks
+\* that every emitted file list is in the byte order of the real paths
+Rank(n) == CASE n = ".x" -> 1 [] n = "Vendor" -> 2 [] n = "_x" -> 3 [] n = "a.templ" -> 4 [] n = "a_b" -> 5
+             [] n = "a_templ.go" -> 6 [] n = "b.templ" -> 7 [] n = "b_templ.go" -> 8 [] n = "d" -> 9
+             [] n = "multivendor" -> 10 [] n = "n.txt" -> 11 [] n = "node_modules" -> 12 [] n = "node_modules2" -> 13
+             [] n = "o.go" -> 14 [] n = "old_node_modules" -> 15 [] n = "vendor" -> 16 [] n = "vendored" -> 17
+             [] n = "x.y" -> 18 [] n = "x_" -> 19
 
-\* internal/skipdir.ShouldSkip on the directory's base name
-SkipName(n) == \/ n \in {"vendor", "node_modules"}
-               \/ (n = ".x" /\ SkipRule # "nodot")
-               \/ (n = "_x" /\ SkipRule # "nounderscore")
+\* the spelling of a directory name, one character per element (TLC cannot index into strings); SpellOK below makes
+\* TLC verify at start-up that the table spells the names it is indexed by
+Spell(n) == CASE n = "d"            -> <<"d">>
+              [] n = "vendor"       -> <<"v", "e", "n", "d", "o", "r">>
+              [] n = "node_modules" -> <<"n", "o", "d", "e", "_", "m", "o", "d", "u", "l", "e", "s">>
+              [] n = ".x"           -> <<".", "x">>
+              [] n = "_x"           -> <<"_", "x">>
+              [] n = "multivendor"  -> <<"m", "u", "l", "t", "i", "v", "e", "n", "d", "o", "r">>
+              [] n = "vendored"     -> <<"v", "e", "n", "d", "o", "r", "e", "d">>
+              [] n = "Vendor"       -> <<"V", "e", "n", "d", "o", "r">>
+              [] n = "old_node_modules" -> <<"o", "l", "d", "_", "n", "o", "d", "e", "_", "m", "o", "d", "u", "l", "e", "s">>
+              [] n = "node_modules2"    -> <<"n", "o", "d", "e", "_", "m", "o", "d", "u", "l", "e", "s", "2">>
+              [] n = "x.y"          -> <<"x", ".", "y">>
+              [] n = "x_"           -> <<"x", "_">>
+              [] n = "a_b"          -> <<"a", "_", "b">>
+AllDirNames == {"d", "vendor", "node_modules", ".x", "_x", "multivendor", "vendored", "Vendor", "old_node_modules",
+                "node_modules2", "x.y", "x_", "a_b"}
+RECURSIVE Cat(_)
+Cat(s) == IF s = << >> THEN "" ELSE Head(s) \o Cat(Tail(s))
+SpellOK == \A n \in AllDirNames : Cat(Spell(n)) = n
+ASSUME SpellOK
+
+HasPrefix(s, p) == Len(s) >= Len(p) /\ SubSeq(s, 1, Len(p)) = p
+HasSuffix(s, p) == Len(s) >= Len(p) /\ SubSeq(s, Len(s) - Len(p) + 1, Len(s)) = p
+Has(s, c) == \E i \in 1..Len(s) : s[i] = c
+Fold(s) == [i \in 1..Len(s) |-> CASE s[i] = "V" -> "v" [] s[i] = "N" -> "n" [] OTHER -> s[i]]   \* strings.ToLower on this alphabet
+ExactNames == {Spell("vendor"), Spell("node_modules")}
+
+\* internal/skipdir.ShouldSkip on the directory's base name:
+\*   name == "vendor" || name == "node_modules" || strings.HasPrefix(name, ".") || strings.HasPrefix(name, "_")
+SkipName(n) == LET s == Spell(n) IN
+    \/ CASE SkipRule = "suffix"   -> \E x \in ExactNames : HasSuffix(s, x)
+         [] SkipRule = "prefix"   -> \E x \in ExactNames : HasPrefix(s, x)
+         [] SkipRule = "foldcase" -> Fold(s) \in ExactNames
+         [] OTHER                 -> s \in ExactNames
+    \/ CASE SkipRule = "nodot"    -> FALSE
+         [] SkipRule = "contains" -> Has(s, ".")
+         [] OTHER                 -> HasPrefix(s, <<".">>)
+    \/ CASE SkipRule = "nounderscore" -> FALSE
+         [] SkipRule = "contains"     -> Has(s, "_")
+         [] OTHER                     -> HasPrefix(s, <<"_">>)
 Skipped(dir) == \E i \in 1..Len(dir) : SkipName(dir[i])          \* WalkDir never descends into a skipped directory
 
 PathOf(k) == [i \in 1..(Len(k[1]) + 1) |-> IF i <= Len(k[1]) THEN Rank(k[1][i]) ELSE Rank(k[2])]
@@ -312,7 +359,9 @@ Spec == Init /\ [][Next]_vars
 F0 == FsOf(tree0)
 \* "outside skipped directories (vendor, node_modules, dot- and underscore-prefixed)" -- the property's own reading,
 \* independent of the SkipRule switch of the walker above
-SkipNameProp(n) == n \in {"vendor", "node_modules", ".x", "_x"}
+\* ("vendor, node_modules, dot- and underscore-prefixed"): a name that merely contains, starts or ends with a skipped
+\* name, or has the dot / underscore elsewhere, is NOT skipped
+SkipNameProp(n) == n \in {"vendor", "node_modules"} \/ Head(Spell(n)) \in {".", "_"}
 Live(k) == ~\E i \in 1..Len(k[1]) : SkipNameProp(k[1][i])
 Templs  == {k \in DOMAIN F0 : k[2] \in TemplNames /\ Live(k)}
 Sib(k)  == <<k[1], SibOf(k[2])>>
